@@ -15,7 +15,7 @@ def WF : Op → Prop
   | nrm _ _ => True
   | lap l => l.lap.nCol = l.lap.nRow
   | con c => c.WF
-  | pol p => p.coeffs ≠ [] ∧ p.matrix.nCol = p.matrix.nRow
+  | pol p => p.coeffs ≠ [] ∧ p.matrix.nCol = p.matrix.nRow ∧ p.matrix.isNull = false
   | gsum a b => a.WF ∧ b.WF ∧ a.nRow = b.nRow ∧ a.nCol = b.nCol
   | gscaled a _ => a.WF
 
@@ -40,7 +40,7 @@ theorem dense_shape : ∀ (o : Op), o.WF → o.dense.nRow = o.nRow ∧ o.dense.n
   | nrm _ true, _ => ⟨rfl, rfl⟩
   | lap _, _ => ⟨rfl, rfl⟩
   | con _, _ => ⟨rfl, rfl⟩
-  | pol p, h => ⟨Polynome.powerSum_nRow _ _ _, Polynome.powerSum_nCol _ h.2 _ _⟩
+  | pol p, h => ⟨Polynome.powerSum_nRow _ _ _, Polynome.powerSum_nCol _ h.2.1 _ _⟩
   | gsum a _, h => by
     obtain ⟨h1, h2⟩ := dense_shape a h.1
     exact ⟨by simpa using h1, by simpa using h2⟩
@@ -59,7 +59,7 @@ theorem matvec_length : ∀ (o : Op) (v : Vec), o.WF → v.length = o.nCol → (
   | pol p, v, h, hv => by
     show (Polynome.matvec p v).length = p.matrix.nRow
     have : p = ⟨p.matrix, p.coeffs⟩ := rfl
-    rw [this, Polynome.matvec_eq_dense p.matrix h.2 p.coeffs h.1 v hv]
+    rw [this, Polynome.matvec_eq_dense p.matrix h.2.1 p.coeffs h.1 v hv]
     simp [Polynome.powerSum_nRow]
   | gsum a _, v, _, _ => by show (tab a.nRow _).length = _; simp
   | gscaled a _, v, _, _ => by show (tab a.nRow _).length = _; simp
@@ -71,7 +71,7 @@ theorem matvec_eq_dense : ∀ (o : Op) (v : Vec), o.WF → v.length = o.nCol →
   | nrm n true, v, _, _ => Normalizer.rmatvec_eq_dense n v
   | lap l, v, h, hv => Laplacian.matvec_eq_dense l v h hv
   | con c, v, _, _ => CoNeighbor.matvec_eq_dense c v
-  | pol p, v, h, hv => Polynome.matvec_eq_dense p.matrix h.2 p.coeffs h.1 v hv
+  | pol p, v, h, hv => Polynome.matvec_eq_dense p.matrix h.2.1 p.coeffs h.1 v hv
   | gsum a b, v, h, hv => by
     obtain ⟨ha, hb, hr, hc⟩ := h
     have ea := matvec_eq_dense a v ha hv
@@ -115,8 +115,8 @@ theorem neg_spec {o o' : Op} (hw : o.WF) (h : o.neg = .ok o') : o'.WF ∧ Mat.Eq
     obtain ⟨t, ht, h⟩ := bind_eq_ok h
     have := pure_eq_ok h; subst this
     unfold Polynome.neg at ht
-    obtain ⟨rfl, hne, hsq⟩ := Polynome.init_ok ht
-    refine ⟨⟨hne, hsq⟩, ?_⟩
+    obtain ⟨rfl, hne, hsq, hnn⟩ := Polynome.init_ok ht
+    refine ⟨⟨hne, hsq, hnn⟩, ?_⟩
     show Mat.Eqv (Polynome.powerSum p.matrix (p.coeffs.map fun c => -c) 0) (Polynome.powerSum p.matrix p.coeffs 0).neg
     have e : (p.coeffs.map fun c => -c) = p.coeffs.map fun c => (-1) * c := by
       apply List.map_congr_left; intro c _; ring
@@ -144,8 +144,8 @@ theorem mul_spec {o o' : Op} {k : Rat} (hw : o.WF) (h : o.mul k = .ok o') :
     obtain ⟨t, ht, h⟩ := bind_eq_ok h
     have := pure_eq_ok h; subst this
     unfold Polynome.mul at ht
-    obtain ⟨rfl, hne, hsq⟩ := Polynome.init_ok ht
-    exact ⟨⟨hne, hsq⟩, Polynome.powerSum_map_mul p.matrix hsq k p.coeffs 0⟩
+    obtain ⟨rfl, hne, hsq, hnn⟩ := Polynome.init_ok ht
+    exact ⟨⟨hne, hsq, hnn⟩, Polynome.powerSum_map_mul p.matrix hsq k p.coeffs 0⟩
   | con c =>
     simp only [mul] at h
     cases h
@@ -210,8 +210,8 @@ theorem transpose_spec {o o' : Op} (hw : o.WF) (h : o.transpose = .ok o') :
     obtain ⟨t, ht, h⟩ := bind_eq_ok h
     have := pure_eq_ok h; subst this
     unfold Polynome.transpose at ht
-    obtain ⟨rfl, hne, hsq⟩ := Polynome.init_ok ht
-    exact ⟨⟨hne, hsq⟩, Polynome.powerSum_transpose p.matrix hw.2 p.coeffs 0⟩
+    obtain ⟨rfl, hne, hsq, hnn⟩ := Polynome.init_ok ht
+    exact ⟨⟨hne, hsq, hnn⟩, Polynome.powerSum_transpose p.matrix hw.2.1 p.coeffs 0⟩
   | con c =>
     simp only [transpose] at h
     cases h
@@ -427,8 +427,8 @@ theorem denote_spec : ∀ (e : OpExpr), e.RegNonneg = true → ∀ o, e.eval = .
     simp only [eval] at h
     obtain ⟨p, hp, h⟩ := bind_eq_ok h
     have := pure_eq_ok h; subst this
-    obtain ⟨rfl, hne, hsq⟩ := Polynome.init_ok hp
-    exact ⟨⟨hne, hsq⟩, Mat.Eqv.of_eq (powerSum_eq_polySum a cs 0)⟩
+    obtain ⟨rfl, hne, hsq, hnn⟩ := Polynome.init_ok hp
+    exact ⟨⟨hne, hsq, hnn⟩, Mat.Eqv.of_eq (powerSum_eq_polySum a cs 0)⟩
   | neg e, hr, o, h => by
     simp only [eval] at h
     obtain ⟨x, hx, h⟩ := bind_eq_ok h
